@@ -34,6 +34,7 @@ Spec directives (contracts/*.skel):
                                        literal (e.g. the `command == "fetch"` branch of main); entry skel_<fn>__focus
   @option vartags 1                    arguments that are plain local variables get an identity tag (1000+k), the literal 0 gets
                                        900, and mutable locals that receive tagged values carry their current tag in a C variable
+  @option limit_tags 1                 std::numeric_limits<uint8_t|uint16_t>::max() carries tag 255 | 65535
   @option loop_bound <k>               loops are unrolled <k> times (default 2): results over loops are BOUNDED
   @prologue ... @end                   ghost state and macros (C)
 """
@@ -137,6 +138,7 @@ class Skel:
         self._contains = {}
         self.dyntags, self.varids, self.dyn_decls = {}, {}, []
         self.throw_sites = []
+        self.range_tags = set()
 
     # ------------------------------------------------------------ helpers
     def canon(self, did):
@@ -273,6 +275,9 @@ class Skel:
             me = self.strip(e['inner'][0])
             if me.get('name') in ('value', 'get') and me.get('inner'):
                 return self.tag_of(me['inner'][0])
+            if me.get('name') in ('size', 'length') and me.get('inner'):
+                t0 = self.tag_of(me['inner'][0])
+                return t0 + 500 if t0 else 0          # "the size of" a tagged container / string
         if k in ('CXXConstructExpr', 'CXXTemporaryObjectExpr') and len(e.get('inner', [])) == 1:
             return self.tag_of(e['inner'][0])       # copy / move / converting construction of the same value
         if k in ('CallExpr', 'CXXMemberCallExpr'):
@@ -282,6 +287,11 @@ class Skel:
             pat = self.match(self.spec.tagcalls, key)
             if pat:
                 return self.spec.tagcalls[pat]
+            if self.spec.options.get('limit_tags') and key and key.split('::')[-1] == 'max' and not args:
+                q = (e.get('type', {}).get('desugaredQualType') or e.get('type', {}).get('qualType') or '')
+                lim = {'unsigned char': 255, 'unsigned short': 65535}.get(q.replace('const ', ''))
+                if lim:
+                    return lim        # std::numeric_limits<uint8_t / uint16_t>::max(): the capacity of a one / two byte field
         if k == 'CXXOperatorCallExpr':
             key, _, _a = self.callee(e)
             pat = self.match(self.spec.tagcalls, key)
@@ -587,15 +597,29 @@ class Skel:
             elif k == 'DoStmt':
                 condn = inner[1] if len(inner) > 1 else None
             elif k == 'CXXForRangeStmt':
+                rng_tag = 0
                 for c in inner[:-1]:
                     if c and c.get('kind') == 'DeclStmt':
+                        for d in c.get('inner', []):
+                            if d.get('kind') == 'VarDecl' and d.get('name', '').startswith('__range'):
+                                ini = [x for x in d.get('inner', []) if x.get('kind')]
+                                if ini:
+                                    rng_tag = self.tag_of(ini[0])
                         lines += self.stmts(c, ind)
+                if rng_tag and inner[-2] and inner[-2].get('kind') == 'DeclStmt':
+                    for d in inner[-2].get('inner', []):
+                        if d.get('kind') == 'VarDecl':
+                            self.alias[d['id']] = rng_tag + 1000     # an ELEMENT of the tagged container
             kb = int(self.spec.options.get('loop_bound', '2'))
             v = f'__l{self.tmp}'
             self.tmp += 1
             lines.append(f'{ind}for (int {v} = 0; {v} < {kb}; ++{v}) /* loop skeleton: at most {kb} iterations (BOUNDED) */ {{')
             cl = []
             c = self.cond(condn, cl, ind + '  ') if condn and condn.get('kind') else self.nd()
+            if k == 'CXXForRangeStmt' and rng_tag and 0 < rng_tag < 64:
+                # all range-for loops over the SAME tagged container agree on whether it is empty
+                self.range_tags.add(rng_tag)
+                c = f'({v} == 0 ? __skel_nonempty[{rng_tag}] : {self.nd()})'
             if k != 'DoStmt':
                 lines += cl
                 lines.append(f'{ind}  if (!({c})) break;')
@@ -988,6 +1012,7 @@ class Skel:
     def emit(self):
         L = ['/* generated by cxxskel from %s -- control-flow skeleton, do not edit */' % self.spec.source,
              '#include <stdint.h>', '_Bool nondet_bool(void); int nondet_int(void);', 'int __skel_exc;   /* 0 = none, else the number of the throw site (see meta) */',
+             '_Bool __skel_nonempty[64];   /* per tagged container: is it non-empty (arbitrary, fixed per run: set by the harness) */',
              '_Bool __skel_ret;   /* success facet (true / has_value) of the last skeleton callee that returned bool or optional */', '']
         L += self.spec.prologue + ['']
         L += ['/* current tag of mutable locals (path-sensitive) */'] + self.dyn_decls + ['']
